@@ -165,9 +165,21 @@ package measure
 //@   loop 0 invariant released: forall k :: 0 <= k && k < range_i ==> s.parts[k].ref == old(s.parts[k].ref) - 1
 //@   loop 0 invariant pending: forall k :: range_i <= k && k < len(s.parts) ==> s.parts[k].ref == old(s.parts[k].ref)
 //
+// lock discipline of the published snapshot pointer: the (ghost) flag says "tst's read lock is held"
+//@ ghost var tableReadLocked bool
+//@ func sync.RWMutex.RLock
+//@   assumed read-locks the table (blocks replaceSnapshot, which takes the write lock)
+//@   modifies tableReadLocked
+//@   ensures  tableReadLocked
+//@ func sync.RWMutex.RUnlock
+//@   assumed releases the read lock
+//@   modifies tableReadLocked
+//@   ensures  !tableReadLocked
 //@ func tsTable.currentSnapshot
 //@   mode int
 //@   opt wrap int32
+//@   modifies tableReadLocked
+//@   at-call snapshot.incRef requires pinned-under-the-read-lock: tableReadLocked && s == tst.snapshot
 //@   requires tst != nil && (tst.snapshot == nil || tst.snapshot.ref < 2147483647)
 //@   modifies tst.snapshot.ref
 //@   ensures  result == tst.snapshot
@@ -186,6 +198,8 @@ package measure
 //@   assumed file system
 //@ func fs.File.Write
 //@   assumed file system
+//@ func fs.Writer.Write
+//@   assumed file system
 //@ func filepath.Join
 //@   assumed path manipulation
 //@   pure
@@ -198,17 +212,27 @@ package measure
 //@ func json.Marshal
 //@   assumed encoding/json
 //@   pure
-//@ func partName
-//@   assumed formatting of a part id
-//@   pure
 //@ func snapshotName
 //@   assumed formatting of an epoch
 //@   pure
-//@ func partWrapper.ID
-//@   assumed reads the part id
+//@ decl func pnameOf(id uint64) string
+//@ func partName
+//@   assumed formatting of a part id (16 hex digits): a function of the id
 //@   pure
+//@   ensures result == pnameOf(epoch)
+//@ func partWrapper.ID
+//@   assumed reads the id from the part's metadata
+//@   pure
+//@   requires pw != nil && pw.p != nil
+//@   ensures result == pw.p.partMetadata.ID
+// the manifest lists EVERY part of the snapshot it is given, in order (in-memory parts included; the loader intersects
+// the list with the part directories that exist)
 //@ func tsTable.createMetadata
-//@   assumed writes the manifest (json list of part names of the given snapshot, file named after its epoch) - external I/O
+//@   mode int
+//@   requires tst != nil && snapshot != nil && (forall k :: 0 <= k && k < len(snapshot.parts) ==> snapshot.parts[k] != nil && snapshot.parts[k].p != nil)
+//@   allow panic when true
+//@   at-call json.Marshal requires lists-every-part: len(partNames) == len(snapshot.parts) && (forall k :: 0 <= k && k < len(snapshot.parts) ==> partNames[k] == pnameOf(snapshot.parts[k].p.partMetadata.ID))
+//@   loop 0 invariant len(partNames) == range_i && (forall k :: 0 <= k && k < range_i ==> partNames[k] == pnameOf(snapshot.parts[k].p.partMetadata.ID))
 //
 // TakeFileSnapshot: the table's current snapshot is pinned before the first part is linked and stays pinned until the
 // manifest of THAT snapshot has been written; the pin is given back exactly once on every path; a failure removes the
@@ -218,11 +242,12 @@ package measure
 //@   opt wrap int32
 //@   requires tst != nil && (tst.snapshot == nil || (tst.snapshot.ref >= 1 && tst.snapshot.ref < 2147483647 && partsOK(tst.snapshot)))
 //@   requires !fileSnapshotRemoved
-//@   requires backed: tst.snapshot != nil ==> (forall k :: 0 <= k && k < len(tst.snapshot.parts) ==> tst.snapshot.parts[k].mp != nil || tst.snapshot.parts[k].p != nil)
+//@   requires backed: tst.snapshot != nil ==> (forall k :: 0 <= k && k < len(tst.snapshot.parts) ==> tst.snapshot.parts[k].p != nil)
 //@   modifies tst.snapshot.ref
 //@   modifies tst.snapshot.parts
 //@   modifies allof(partWrapper.ref)
 //@   modifies fileSnapshotRemoved
+//@   modifies tableReadLocked
 //@   at-call CreateHardLink requires pinned-while-linking: tst.snapshot != nil && tst.snapshot.ref == old(tst.snapshot.ref) + 1
 //@   at-call createMetadata requires manifest-of-the-pinned-snapshot: arg1 == tst.snapshot && tst.snapshot.ref == old(tst.snapshot.ref) + 1
 //@   ensures  none: tst.snapshot == nil ==> !result0 && result1 != nil
@@ -231,7 +256,7 @@ package measure
 //@   ensures  failure-cleans-up: result1 != nil && tst.snapshot != nil ==> fileSnapshotRemoved
 //@   ensures  success-keeps: result1 == nil ==> !fileSnapshotRemoved
 //@   loop 0 invariant tst.snapshot == old(tst.snapshot) && snapshot == tst.snapshot && tst.snapshot.ref == old(tst.snapshot.ref) + 1 && !fileSnapshotRemoved && err == nil && partsOK(snapshot)
-//@   loop 0 invariant samehdr(snapshot.parts, old(tst.snapshot.parts)) && (forall p *partWrapper :: p.ref == old(p.ref)) && (forall k :: 0 <= k && k < len(snapshot.parts) ==> snapshot.parts[k].mp != nil || snapshot.parts[k].p != nil)
+//@   loop 0 invariant samehdr(snapshot.parts, old(tst.snapshot.parts)) && (forall p *partWrapper :: p.ref == old(p.ref)) && (forall k :: 0 <= k && k < len(snapshot.parts) ==> snapshot.parts[k].p != nil)
 //
 //@ section C08
 // ---- part-level time pruning: every part whose time range meets the query range is selected ----
@@ -257,3 +282,67 @@ package measure
 //@   modifies allof(part.cache)
 //@   loop 0 unroll 3
 //@   ensures  no-matching-part-discarded: forall k :: 0 <= k && k < len(s.parts) && partMeets(s.parts[k].p, minTimestamp, maxTimestamp) ==> (exists j :: len(dst) <= j && j < len(result0) && result0[j] == s.parts[k].p)
+//
+//@ section WIP-C02 WIP-C03
+// (work in progress: not yet attributed to a claimed property; see /verif/DESIGN.md §7)
+// ---- merging two blocks of one series: strictly increasing timestamps, highest version wins ----
+//@ spec func sep(bi *blockPointer, b *blockPointer) bool = !sameobj(bi.timestamps, b.timestamps) && !sameobj(bi.versions, b.versions) && !sameobj(bi.timestamps, b.versions) && !sameobj(bi.versions, b.timestamps) && !sameobj(bi.timestamps, bi.versions)
+// a block cursor: rows [idx, len) are still to be merged; they are strictly increasing and inside the metadata bounds
+//@ spec func cursorOK(b *blockPointer) bool = b != nil && len(b.versions) == len(b.timestamps) && 0 <= b.idx
+//@ spec func increasing(b *blockPointer) bool = forall a, c :: b.idx <= a && a < c && c < len(b.timestamps) ==> b.timestamps[a] < b.timestamps[c]
+//@ spec func bounded(b *blockPointer) bool = forall a :: b.idx <= a && a < len(b.timestamps) ==> b.bm.timestamps.min <= b.timestamps[a] && b.timestamps[a] <= b.bm.timestamps.max
+//@ spec func notTopN(b *blockPointer) bool = len(b.tagFamilies) == 0 || b.tagFamilies[0].name != TopNTagFamily
+// the rows appended to the target so far (from row n0 on)
+//@ spec func sortedFrom(t *blockPointer, n0 int) bool = forall i, j :: n0 <= i && i < j && j < len(t.timestamps) ==> t.timestamps[i] < t.timestamps[j]
+//@ spec func belowHead(t *blockPointer, n0 int, x *blockPointer) bool = forall i :: n0 <= i && i < len(t.timestamps) ==> t.timestamps[i] < x.timestamps[x.idx]
+//@ spec func consumedBelow(x *blockPointer, x0 int, y *blockPointer) bool = forall a :: x0 <= a && a < x.idx ==> x.timestamps[a] < y.timestamps[y.idx]
+//@ spec func winner(t *blockPointer, n0 int, x *blockPointer, x0 int) bool = forall i, a :: n0 <= i && i < len(t.timestamps) && x0 <= a && a < len(x.timestamps) && t.timestamps[i] == x.timestamps[a] ==> t.versions[i] >= x.versions[a]
+//@ func parseTopNMeta
+//@   assumed decodes the TopN parameters of a TopN result block (generated protobuf types); never reached for ordinary blocks
+//@   pure
+//@ func blockPointer.mergeAndAppendTopN
+//@   assumed TopN result blocks only (generated protobuf types); never reached for ordinary blocks
+//@   requires false
+//@ func mergeTwoBlocks
+//@   mode int
+//@   timeout 20
+//@   opt decl-pc
+//@   inline isTopNBlock
+//@   requires target != nil && target != left && target != right && left != right
+//@   requires cursorOK(left) && cursorOK(right) && notTopN(left) && notTopN(right)
+//@   requires incL: increasing(left)
+//@   requires incR: increasing(right)
+//@   requires bndL: bounded(left)
+//@   requires bndR: bounded(right)
+//@   requires target.idx == 0 && len(target.versions) == len(target.timestamps) && sep(target, left) && sep(target, right)
+//@   modifies target.timestamps
+//@   modifies target.versions
+//@   modifies target.timestamps[len(target.timestamps):cap(target.timestamps)]
+//@   modifies target.versions[len(target.versions):cap(target.versions)]
+//@   modifies target.tagFamilies
+//@   modifies target.field
+//@   modifies target.bm.timestamps.min
+//@   modifies target.bm.timestamps.max
+//@   modifies left.idx
+//@   modifies right.idx
+//@   ensures  no-duplicate-timestamps: sortedFrom(target, old(len(target.timestamps)))
+//@   ensures  highest-version-left: winner(target, old(len(target.timestamps)), old(left), old(left.idx))
+//@   ensures  highest-version-right: winner(target, old(len(target.timestamps)), old(right), old(right.idx))
+//@   loop 0 split-paths
+//@   loop 0 invariant who: target == old(target) && ((left == old(left) && right == old(right)) || (left == old(right) && right == old(left))) && !isTopN
+//@   loop 0 invariant cursors: cursorOK(left) && cursorOK(right) && left.idx < len(left.timestamps) && right.idx < len(right.timestamps) && old(left).idx >= old(left.idx) && old(right).idx >= old(right.idx)
+//@   loop 0 invariant stableL: samehdr(old(left).timestamps, old(left.timestamps)) && samehdr(old(left).versions, old(left.versions)) && (forall a :: 0 <= a && a < len(old(left).timestamps) ==> old(left).timestamps[a] == old(left.timestamps[a]) && old(left).versions[a] == old(left.versions[a]))
+//@   loop 0 invariant stableR: samehdr(old(right).timestamps, old(right.timestamps)) && samehdr(old(right).versions, old(right.versions)) && (forall a :: 0 <= a && a < len(old(right).timestamps) ==> old(right).timestamps[a] == old(right.timestamps[a]) && old(right).versions[a] == old(right.versions[a]))
+//@   loop 0 invariant incL: increasing(left)
+//@   loop 0 invariant incR: increasing(right)
+//@   loop 0 invariant tgt: target.idx == 0 && len(target.versions) == len(target.timestamps) && len(target.timestamps) >= old(len(target.timestamps)) && sep(target, left) && sep(target, right)
+//@   loop 0 invariant shape: (fresh(target.timestamps) || (sameobj(target.timestamps, old(target.timestamps)) && off(target.timestamps) == off(old(target.timestamps)) && cap(target.timestamps) == cap(old(target.timestamps)))) && (fresh(target.versions) || (sameobj(target.versions, old(target.versions)) && off(target.versions) == off(old(target.versions)) && cap(target.versions) == cap(old(target.versions)))) && (fresh(target.tagFamilies) || sameobj(target.tagFamilies, old(target.tagFamilies))) && (fresh(target.field.columns) || sameobj(target.field.columns, old(target.field.columns)))
+//@   loop 0 invariant sorted: sortedFrom(target, old(len(target.timestamps)))
+//@   loop 0 invariant belowL: belowHead(target, old(len(target.timestamps)), left)
+//@   loop 0 invariant belowR: belowHead(target, old(len(target.timestamps)), right)
+//@   loop 0 invariant consumedL: consumedBelow(old(left), old(left.idx), old(right))
+//@   loop 0 invariant consumedR: consumedBelow(old(right), old(right.idx), old(left))
+//@   loop 0 invariant winL: winner(target, old(len(target.timestamps)), old(left), old(left.idx))
+//@   loop 0 invariant winR: winner(target, old(len(target.timestamps)), old(right), old(right.idx))
+//@   loop 1 invariant left.idx <= i && i <= len(left.timestamps) && (forall a :: left.idx <= a && a < i ==> left.timestamps[a] <= ts2)
+//@   loop 1 decreases len(left.timestamps) - i
